@@ -8,7 +8,11 @@ use shopify_function_wasm_api::CachedInternedStringId;
 use std::sync::mpsc::{channel, Receiver, Sender};
 use std::sync::Mutex;
 
-pub const KEYS: [&str; 6] = ["foo", "bar", "k0", "k1", "a", "title"];
+pub const KEYS: [&str; 8] = ["foo", "bar", "k0", "k1", "a", "title", "fo", "ti"];
+/// keys 6 and 7 are leading slices of the SAME static strings as keys 0 and 5: different contents, same start address
+static BASE_FOO: &str = "foo";
+static BASE_TITLE: &str = "title";
+fn key_str(k: usize) -> &'static str { match k { 0 => BASE_FOO, 5 => BASE_TITLE, 6 => &BASE_FOO[..2], 7 => &BASE_TITLE[..2], _ => KEYS[k] } }
 static CACHED: [CachedInternedStringId; 6] = [CachedInternedStringId::new("foo"), CachedInternedStringId::new("bar"), CachedInternedStringId::new("k0"),
     CachedInternedStringId::new("k1"), CachedInternedStringId::new("a"), CachedInternedStringId::new("title")];
 
@@ -52,13 +56,20 @@ fn exec(w: &mut Worker, step: &str) -> String {
                     if a[4] > 0 { std::ptr::copy(m.as_ptr().add(a[0].saturating_add(a[2]).min(m.len())), a[3] as *mut u8, l2); } } } }
             "UNIT".into() }
         ["LOAD", k] => { let k = k.parse::<usize>().unwrap(); w.loads += 1;
-            let id = if w.loads % 2 == 0 { *w.slot = CachedInternedStringId::new(KEYS[k]); w.slot.load() } else { CACHED[k].load() };
+            let id = if w.loads % 2 == 0 || k >= CACHED.len() || k == 0 || k == 5 { *w.slot = CachedInternedStringId::new(key_str(k)); w.slot.load() } else { CACHED[k].load() };
             let n: usize = unsafe { std::mem::transmute_copy(&id) }; format!("ID {}", n) }
         // API-level interning (Context::intern_utf8_str / Value::intern_utf8_str alternate): the glue requests the
         // destination and copies at once; the same few key strings are used by every thread
         ["AINTERN", h] => { let b = unhex(h); let st = String::from_utf8_lossy(&b).into_owned(); w.loads += 1;
             let id = if w.loads % 2 == 0 { shopify_function_wasm_api::Context.intern_utf8_str(&st) } else { shopify_function_wasm_api::Context.input_get().map(|v| v.intern_utf8_str(&st)).unwrap_or_else(|_| shopify_function_wasm_api::Context.intern_utf8_str(&st)) };
             let n: usize = unsafe { std::mem::transmute_copy(&id) }; format!("ID {}", n) }
+        // API-level nested container writes (closures): d arrays of one element around an i32; `bad` offers a second i32 to
+        // the full innermost container, the error propagates through the closures and leaves every container open
+        ["ANEST", d, bad] => {
+            fn nest(c: &mut shopify_function_wasm_api::Context, d: usize, bad: bool) -> Result<(), shopify_function_wasm_api::write::Error> {
+                if d == 0 { c.write_i32(7)?; if bad { c.write_i32(8)?; } Ok(()) } else { c.write_array(|c| nest(c, d - 1, bad), 1) } }
+            let r = nest(&mut shopify_function_wasm_api::Context, d.parse().unwrap(), *bad == "1");
+            format!("ST {}", c03::api_status_pub(r)) }
         ["FIN"] => { let (r, b) = provider::write::shopify_function_output_finalize_and_return_msgpack_bytes(); format!("FIN {} {}", r as usize, c03::digest(&b)) }
         ["VIEW"] => { let (buf, base, cap, wd) = provider::log::verif_log_view();
             let seg = |p: usize, l: usize| -> Option<Vec<u8>> { if l == 0 { Some(vec![]) } else if p < base || p - base + l > cap { None } else { Some(buf[p - base..p - base + l].to_vec()) } };
@@ -139,7 +150,8 @@ pub fn script(r: &mut Rng, n: usize, interned: &mut usize, cap: usize, own_ids_o
                 if r.chance(40) { s.push(format!("AINTERN {}", hex(KEYS[k as usize].as_bytes()))); *interned += 1; } else { s.push(format!("LOAD {}", k)); } } },
             9 => { let l = *r.pick(&[0usize, 1, 2, 2]); if r.chance(50) { s.push(format!("W SOBJ {}", l)); depth.push((true, l, 0)); } else { s.push(format!("W SARR {}", l)); depth.push((false, l, 0)); } }
             10 => { s.push(match depth.pop() { Some((true, ..)) => "W FOBJ".to_string(), Some((false, ..)) => "W FARR".to_string(), None => if r.chance(50) { "W FOBJ".into() } else { "W FARR".into() } }); }
-            11 => s.push(format!("W {}", r.pick(&["NULL", "BOOL 1", "I32 -7", "I32 70000", "F64 3ff8000000000000", "STR 6b30"]))),
+            11 => if r.chance(25) { let d = if r.chance(30) { *r.pick(&[100usize, 120, 127, 130]) } else { r.below(9) as usize }; s.push(format!("ANEST {} {}", d, if r.chance(45) { 1 } else { 0 })); }
+                  else { s.push(format!("W {}", r.pick(&["NULL", "BOOL 1", "I32 -7", "I32 70000", "F64 3ff8000000000000", "STR 6b30"]))) },
             12 => s.push(r.pick(&["VIEW", "OUT", "FIN"]).to_string()),
             _ => s.push(format!("W STR {}", bytes(r, 2))),
         }
